@@ -8,6 +8,7 @@ package main
 // Succs[1] the false edge. implied() derives what each edge guarantees.
 
 import (
+	"fmt"
 	"go/ast"
 	"go/token"
 	"go/types"
@@ -25,6 +26,8 @@ type Graph struct {
 	// folds to a constant (`if false`, `c && false`, `c || true`); every
 	// reachability query treats them as cut.
 	dead map[Edge]bool
+	// trackedVars: see pathsens.go
+	trackedVars map[types.Object]bool
 }
 
 // Point is the program point *at* node I of block B (I == len(B.Nodes) is the
@@ -215,10 +218,11 @@ func (g *Graph) Reach(from Point, cut Cut, target func(p Point, n ast.Node) bool
 	type item struct {
 		b    *cfg.Block
 		i    int
+		env  penv
 		prev *item
 	}
-	seen := map[*cfg.Block]bool{}
-	queue := []*item{{from.B, from.I, nil}}
+	seen := map[string]bool{}
+	queue := []*item{{from.B, from.I, nil, nil}}
 	pathOf := func(it *item) []*cfg.Block {
 		var p []*cfg.Block
 		for x := it; x != nil; x = x.prev {
@@ -230,6 +234,7 @@ func (g *Graph) Reach(from Point, cut Cut, target func(p Point, n ast.Node) bool
 		it := queue[0]
 		queue = queue[1:]
 		stopped := false
+		env := it.env
 		for i := it.i; i < len(it.b.Nodes); i++ {
 			n := it.b.Nodes[i]
 			p := Point{it.b, i}
@@ -244,6 +249,7 @@ func (g *Graph) Reach(from Point, cut Cut, target func(p Point, n ast.Node) bool
 				stopped = true
 				break
 			}
+			env = g.step(env, n)
 		}
 		if stopped {
 			continue
@@ -256,17 +262,23 @@ func (g *Graph) Reach(from Point, cut Cut, target func(p Point, n ast.Node) bool
 			}
 		}
 		for k, s := range it.b.Succs {
-			if cut.Edges[Edge{it.b, k}] || g.dead[Edge{it.b, k}] {
+			e := Edge{it.b, k}
+			if cut.Edges[e] || g.dead[e] {
 				continue
 			}
 			if cut.NoEnter != nil && cut.NoEnter(s) {
 				continue
 			}
-			if seen[s] {
+			if !g.feasible(e, env) {
 				continue
 			}
-			seen[s] = true
-			queue = append(queue, &item{s, 0, it})
+			nenv := g.refine(env, e)
+			key := fmt.Sprintf("%d|%s", s.Index, nenv.key())
+			if seen[key] {
+				continue
+			}
+			seen[key] = true
+			queue = append(queue, &item{s, 0, nenv, it})
 		}
 	}
 	return nil, nil
@@ -568,16 +580,19 @@ func isNilCmp(info *types.Info, e ast.Expr, isX func(ast.Expr) bool) (eq bool, o
 // satisfies pred (pred is called with n == nil for the end of an exit block).
 func (g *Graph) ReachAll(from Point, cut Cut, pred func(p Point, n ast.Node) bool) []Point {
 	var out []Point
-	seen := map[*cfg.Block]bool{}
+	got := map[Point]bool{}
+	seen := map[string]bool{}
 	type item struct {
-		b *cfg.Block
-		i int
+		b   *cfg.Block
+		i   int
+		env penv
 	}
-	queue := []item{{from.B, from.I}}
+	queue := []item{{from.B, from.I, nil}}
 	for len(queue) > 0 {
 		it := queue[0]
 		queue = queue[1:]
 		stopped := false
+		env := it.env
 		for i := it.i; i < len(it.b.Nodes); i++ {
 			n := it.b.Nodes[i]
 			p := Point{it.b, i}
@@ -585,32 +600,44 @@ func (g *Graph) ReachAll(from Point, cut Cut, pred func(p Point, n ast.Node) boo
 				stopped = true
 				break
 			}
-			if pred(p, n) {
+			if pred(p, n) && !got[p] {
+				got[p] = true
 				out = append(out, p)
 			}
 			if cut.Stop != nil && cut.Stop(p, n) {
 				stopped = true
 				break
 			}
+			env = g.step(env, n)
 		}
 		if stopped {
 			continue
 		}
 		if g.fallsOff(it.b) {
 			p := Point{it.b, len(it.b.Nodes)}
-			if pred(p, nil) {
+			if pred(p, nil) && !got[p] {
+				got[p] = true
 				out = append(out, p)
 			}
 		}
 		for k, s := range it.b.Succs {
-			if cut.Edges[Edge{it.b, k}] || g.dead[Edge{it.b, k}] || seen[s] {
+			e := Edge{it.b, k}
+			if cut.Edges[e] || g.dead[e] {
 				continue
 			}
 			if cut.NoEnter != nil && cut.NoEnter(s) {
 				continue
 			}
-			seen[s] = true
-			queue = append(queue, item{s, 0})
+			if !g.feasible(e, env) {
+				continue
+			}
+			nenv := g.refine(env, e)
+			key := fmt.Sprintf("%d|%s", s.Index, nenv.key())
+			if seen[key] {
+				continue
+			}
+			seen[key] = true
+			queue = append(queue, item{s, 0, nenv})
 		}
 	}
 	return out
